@@ -441,8 +441,16 @@ def _run_c10(chk, prog):
 # ==========================================================================================
 # C11
 # ==========================================================================================
-@both_log_levels
 def run_c11(chk, prog):
+    _run_c11(chk, prog)
+    # fail-stop quantifies over every reply the protocol does not allow at a step: which replies those are is the reference
+    # protocol (Appendix C), so that clause is C10's step rule, run here as a leg; the invariants above need no reference
+    n = chk.include("C11.failstop", _run_c10, prog, keep=lambda r: r.startswith("C10.step"))
+    chk.floor("C11.failstop", "controller transitions compared with the documented protocol (C10.step)", n, 200)
+
+
+@both_log_levels
+def _run_c11(chk, prog):
     chk.notes.append("Invariants on the extracted controller automaton (A8), without a reference: own address on every addressed message; a foreign-address reply is never treated "
                      "differently from an unrecognised one; success of configure/send_pages only through `own address AND received state` on the QueryState that ends a transfer; "
                      "a bus error always ends the operation with that error; at most three transfer requests on any path, retried only on `own address AND failed state`.")
